@@ -121,6 +121,105 @@ theorem add1day_safe (e : Ext) (d : Nat → Int) (h : 3 ≤ e .date)
   all_goals simp at *
   all_goals omega
 
+/-- `c_var2h` (with the bounded start scan and the 64-bit period start): the pointer `varindex` stays in
+`0 .. nvalvar-2` because the stamp it points at always precedes the end of the current period — for any stamps,
+sorted or not (a decrease is answered with the error return) -/
+theorem var2h_safe (e : Ext) (nvalvar nvalh nbsec rainfall hstart : Int) (sec : Nat → Int)
+    (h1 : nvalvar ≤ e .varsec) (h2 : nvalvar ≤ e .varvalues) (h3 : nvalh ≤ e .hvalues)
+    (hh : nvalh ≤ 2147483647) (hs : -4611686018427387904 ≤ hstart ∧ hstart ≤ 4611686018427387904) :
+    Safe (var2h e nvalvar nvalh nbsec rainfall hstart sec) := by
+  apply safe_of_wp (Q := fun _ => True)
+  unfold var2h
+  refine wp_ite (fun _ => wp_pure trivial) (fun _ => wp_ite (fun _ => wp_pure trivial) (fun hnb => ?_))
+  have hnb : nbsec = 1800 ∨ nbsec = 3600 := by omega
+  refine wp_bind (wp_mono (wp_var2hScan h1) (fun v0 hv0 => ?_))
+  refine wp_ite (fun _ => wp_pure trivial) (fun hv => ?_)
+  have hv0' := hv0.2 (by omega)
+  refine wp_bind (wp_forLoop
+    (fun i v => 0 ≤ v ∧ v + 1 < nvalvar ∧ sec v.toNat < hstart + i * nbsec + nbsec) _ _ _ ?_ ?_ ?_)
+  · refine ⟨by omega, by omega, ?_⟩
+    rcases hnb with h | h <;> subst h <;> omega
+  · intro i v hi0 hi1 hI
+    obtain ⟨hv0, hv1, hsv⟩ := hI
+    unfold var2hBody
+    have hp : 0 ≤ i * nbsec ∧ i * nbsec ≤ 7730941132800 := by
+      rcases hnb with h | h <;> subst h <;> omega
+    wp_lin
+    refine wp_forLoopP
+      (fun j (s : Int × Int) => s.1 = v + j ∧ s.1 + 1 < nvalvar ∧ s.2 = sec s.1.toNat ∧
+        (1 ≤ j → sec (s.1 - 1).toNat < hstart + i * nbsec + nbsec) ∧ (j = 0 → s.2 < hstart + i * nbsec + nbsec))
+      (fun (r : Int ⊕ Int) => ∀ v', r = Sum.inr v' → 0 ≤ v' - 1 ∧ v' - 1 + 1 < nvalvar ∧ sec (v' - 1).toNat < hstart + i * nbsec + nbsec)
+      _ _ _ ?_ ?_ ?_
+    · exact ⟨by omega, hv1, rfl, by intro h; omega, fun _ => hsv⟩
+    · intro j s hj0 hj1 hJ
+      obtain ⟨hw, hw1, ht, hprev, hfirst⟩ := hJ
+      unfold var2hInner
+      wp_lin
+      · refine ⟨(by intro s' hs; cases hs), ?_⟩
+        intro r hr; cases hr
+        intro v' hv'; cases hv'
+      · refine ⟨(by intro s' hs; cases hs), ?_⟩
+        intro r hr; cases hr
+        intro v' hv'; cases hv'
+        have e1 : s.1 + 1 - 1 = s.1 := by omega
+        rw [e1]
+        exact ⟨by omega, by omega, by rw [← ht]; assumption⟩
+      · refine ⟨?_, (by intro r hr; cases hr)⟩
+        intro s' hs; cases hs
+        refine ⟨by simp; omega, by simp; omega, rfl, ?_, by intro h; omega⟩
+        intro _
+        have e1 : s.1 + 1 - 1 = s.1 := by omega
+        simp only [e1]
+        rw [← ht]; assumption
+      · refine ⟨(by intro s' hs; cases hs), ?_⟩
+        intro r hr; cases hr
+        intro v' hv'; cases hv'
+        have hj1' : 1 ≤ j := by
+          by_contra hj
+          have : j = 0 := by omega
+          have := hfirst this
+          omega
+        exact ⟨by omega, by omega, hprev hj1'⟩
+    · intro x hinv hp
+      cases x with
+      | inl s =>
+        have := (hinv s rfl)
+        omega
+      | inr r =>
+        cases r with
+        | inl c => exact wp_pure (by intro s' hs; cases hs)
+        | inr v' =>
+          have := hp _ rfl v' rfl
+          simp only []
+          wp_lin
+          intro s' hs; cases hs
+          refine ⟨this.1, this.2.1, ?_⟩
+          have e1 : hstart + (i + 1) * nbsec + nbsec = hstart + i * nbsec + nbsec + nbsec := by ring
+          rw [e1]
+          omega
+  · intro x _
+    cases x <;> exact wp_pure trivial
+/-- `c_combi` (after the fix): no `int`/`long long` overflow, no zero divisor — the accepted arguments are the
+finite table `0 ≤ k ≤ 30`, `0 ≤ n-k ≤ 30`, checked exhaustively by kernel evaluation (`combi_table`) -/
+theorem combi_safe (n k : Int) (hn : I32 n) : Safe (combi n k) := by
+  unfold I32 at hn
+  by_cases hr : n < 0 ∨ k < 0 ∨ k > 30
+  · unfold combi; simp only [hr, if_true]; exact ⟨_, rfl⟩
+  · by_cases hd : n - k > 30
+    · apply safe_of_wp (Q := fun _ => True)
+      unfold combi
+      simp only [hr, if_false]
+      refine wp_bind (wp_i32 ⟨by omega, by omega⟩ ?_)
+      simp only [hd, if_true]
+      exact wp_pure trivial
+    · have h1 : n.toNat < 61 := by omega
+      have h2 : k.toNat < 31 := by omega
+      have := combi_table ⟨n.toNat, h1⟩ ⟨k.toNat, h2⟩
+      simp only [] at this
+      have e1 : ((n.toNat : Nat) : Int) = n := by omega
+      have e2 : ((k.toNat : Nat) : Int) = k := by omega
+      rw [e1, e2] at this
+      exact safe_of_isOk this
 /-! ## stat package -/
 
 theorem armodelSim_safe (e : Ext) (nval nparams : Int) (pnan : Nat → Bool) (bad : Bool)
@@ -293,4 +392,214 @@ theorem downstream_safe (e : Ext) (nrows ncols nval : Int) (code fdir cells : Na
     cases d <;> wp_lin
   · intro x _
     cases x <;> exact wp_pure trivial
+theorem accumulate_safe (e : Ext) (nrows ncols nprint maxcells : Int) (code fdir : Nat → Int)
+    (hc : 0 ≤ ncols) (hN : nrows * ncols ≤ 9223372036854775807)
+    (hfd : nrows * ncols ≤ e .flowdir) (hcode : 9 ≤ e .flowdircode)
+    (h1 : nrows * ncols ≤ e .toacc) (h2 : nrows * ncols ≤ e .accumulation) :
+    Safe (accumulate e nrows ncols nprint maxcells code fdir) := by
+  apply safe_of_wp (Q := fun _ => True)
+  unfold accumulate
+  refine wp_ite (fun _ => wp_pure trivial) (fun _ => wp_ite (fun _ => wp_pure trivial) (fun hr => ?_))
+  have hr : 0 ≤ nrows := by omega
+  have h0 : 0 ≤ nrows * ncols := Int.mul_nonneg hr hc
+  refine wp_bind (wp_i64 ⟨by omega, by omega⟩ ?_)
+  refine wp_bind (wp_forLoop (fun _ _ => True) _ _ _ trivial ?_ ?_)
+  · intro i _ hi0 hi1 _
+    wp_lin
+    all_goals (
+      refine wp_forLoop (fun _ cur => InGrid nrows ncols cur) _ _ i ?_ ?_ ?_
+      · unfold InGrid; omega
+      · intro j cur _ _ hcur
+        unfold accWalk
+        refine wp_bind (wp_mono (wp_downstream1 hr hc hN hfd hcode (le_refl 0) (by simp [oneExt]) (by simp [oneExt])) ?_)
+        intro d hd
+        cases d with
+        | none => exact wp_pure (by intro s' hs; cases hs)
+        | some dn =>
+          have hdn := hd.2 dn rfl
+          unfold InGrid at hdn hcur
+          simp only []
+          wp_lin
+          intro s' hs; cases hs; unfold InGrid; omega
+      · intro w _
+        wp_run)
+  · intro x _
+    wp_run
+
+theorem slope_safe (e : Ext) (nrows ncols nprint : Int) (code fdir : Nat → Int)
+    (hc : 0 ≤ ncols) (hN : nrows * ncols ≤ 9223372036854775807)
+    (hfd : nrows * ncols ≤ e .flowdir) (hcode : 9 ≤ e .flowdircode)
+    (h1 : nrows * ncols ≤ e .altitude) (h2 : nrows * ncols ≤ e .slopeval) :
+    Safe (slope e nrows ncols nprint code fdir) := by
+  apply safe_of_wp (Q := fun _ => True)
+  unfold slope
+  refine wp_ite (fun _ => wp_pure trivial) (fun hr => ?_)
+  have hr : 0 ≤ nrows := by omega
+  have h0 : 0 ≤ nrows * ncols := Int.mul_nonneg hr hc
+  refine wp_bind (wp_i64 ⟨by omega, by omega⟩ ?_)
+  refine wp_bind (wp_forLoop (fun _ _ => True) _ _ _ trivial ?_ ?_)
+  · intro i _ hi0 hi1 _
+    wp_lin
+    all_goals (
+      refine wp_mono (wp_downstream1 hr hc hN hfd hcode (le_refl 0) (by simp [oneExt]) (by simp [oneExt])) ?_
+      intro d hd
+      cases d with
+      | none => exact wp_pure (by intro s' hs; cases hs)
+      | some dn =>
+        have hdn := hd.2 dn rfl
+        unfold InGrid at hdn
+        simp only []
+        wp_lin)
+  · intro x _
+    wp_run
+theorem slice_safe (e : Ext) (nrows ncols nval : Int) (f1 f2 f3 : Nat → XInt × XInt)
+    (hN : nrows * ncols ≤ 9223372036854775807)
+    (h1 : nrows * ncols ≤ e .data) (h2 : 2 * nval ≤ e .xyslice) (h3 : nval ≤ e .zslice) :
+    Safe (slice e nrows ncols nval f1 f2 f3) := by
+  apply safe_of_wp (Q := fun _ => True)
+  unfold slice
+  refine wp_bind (wp_forEach (fun i hi0 hi1 => ?_) (wp_pure trivial))
+  wp_lin
+  refine wp_mono (wp_coord2cell1 _ _ hN) (fun c1 hc1 => ?_)
+  refine wp_ite (fun _ => wp_pure trivial) (fun hp1 => ?_)
+  have g1 : InGrid nrows ncols c1 := hc1.resolve_left (by omega)
+  refine wp_bind (wp_getnxy (ncols_ne_zero_of_inGrid g1) (fun _ => ?_))
+  unfold InGrid at g1
+  wp_lin
+  refine wp_mono (wp_coord2cell1 _ _ hN) (fun c2 hc2 => ?_)
+  refine wp_ite (fun _ => wp_pure trivial) (fun hp2 => ?_)
+  refine wp_bind (wp_mono (wp_coord2cell1 _ _ hN) (fun c3 hc3 => ?_))
+  refine wp_ite (fun _ => wp_pure trivial) (fun hp3 => ?_)
+  unfold InGrid at hc2 hc3
+  wp_lin
+
+theorem voronoi_safe (e : Ext) (nrows ncols ncells npoints : Int) (cells : Nat → Int) (closer : Nat → Nat → Bool)
+    (h1 : ncells ≤ e .idxcellsArea) (h2 : 2 * npoints ≤ e .xypoints) (h3 : npoints ≤ e .weights) :
+    Safe (voronoi e nrows ncols ncells npoints cells closer) := by
+  apply safe_of_wp (Q := fun _ => True)
+  unfold voronoi
+  wp_lin
+  refine wp_getnxy (by omega) (fun _ => ?_)
+  refine wp_bind (wp_forLoop (fun _ jmin => 0 ≤ jmin ∧ jmin < npoints) _ _ _ (by simp; omega) ?_ ?_)
+  · intro j jmin hj0 hj1 hI
+    wp_lin
+  · intro x hx
+    cases x with
+    | inr x => exact nomatch x
+    | inl jmin =>
+      have := hx jmin rfl
+      wp_lin
+
+theorem inside_safe (e : Ext) (nprint npoints nvertices : Int) (outbox : Nat → Bool)
+    (hv : 1 ≤ nvertices) (hv32 : 2 * nvertices ≤ 2147483647)
+    (h1 : 2 * npoints ≤ e .points) (h2 : 2 * nvertices ≤ e .polygon) (h3 : npoints ≤ e .inside)
+    (h4 : 2 ≤ e .xlim) (h5 : 2 ≤ e .ylim) (h32 : 2 * npoints ≤ 2147483647) :
+    Safe (inside e nprint npoints nvertices outbox) := by
+  apply safe_of_wp (Q := fun _ => True)
+  unfold inside
+  refine wp_bind (wp_forEach (fun ipt hi0 hi1 => ?_) (wp_pure trivial))
+  wp_lin
+
+theorem excludeZeroArea_safe (e : Ext) (nval : Int) (h1 : 2 * nval ≤ e .xycoords) (h2 : nval ≤ e .idxok) :
+    Safe (excludeZeroArea e nval) := by
+  apply safe_of_wp (Q := fun _ => True)
+  unfold excludeZeroArea
+  wp_run
+
+theorem delineateRiver_safe (e : Ext) (nrows ncols nval idxupstream : Int) (code fdir : Nat → Int)
+    (hr : 0 ≤ nrows) (hc : 0 ≤ ncols) (hN : nrows * ncols ≤ 9223372036854775807)
+    (hfd : nrows * ncols ≤ e .flowdir) (hcode : 9 ≤ e .flowdircode)
+    (h1 : 1 ≤ e .npoints) (h2 : nval ≤ e .idxcells) (h3 : 5 * nval ≤ e .rivdata) :
+    Safe (delineateRiver e nrows ncols nval idxupstream code fdir) := by
+  apply safe_of_wp (Q := fun _ => True)
+  unfold delineateRiver
+  have h0 : 0 ≤ nrows * ncols := Int.mul_nonneg hr hc
+  refine wp_bind (wp_i64 ⟨by omega, by omega⟩ ?_)
+  refine wp_ite (fun _ => wp_pure trivial) (fun hv => ?_)
+  wp_lin
+  refine wp_forLoop (fun _ cur => InGrid nrows ncols cur) _ _ idxupstream ?_ ?_ ?_
+  · unfold InGrid; omega
+  · intro i cur hi0 hi1 hcur
+    have hnz := ncols_ne_zero_of_inGrid hcur
+    wp_lin
+    refine wp_mono (wp_downstream1 hr hc hN hfd hcode (le_refl 0) (by simp [oneExt]) (by simp [oneExt])) ?_
+    intro d hd
+    wp_lin
+    refine wp_getnxy hnz (fun _ => ?_)
+    wp_lin
+    · cases d with
+      | none => exact wp_pure (by intro s' hs; cases hs)
+      | some dn =>
+        have hdn := hd.2 dn rfl
+        simp only []
+        wp_lin
+        intro s' hs; cases hs
+        rcases hdn with h | h | h
+        · omega
+        · omega
+        · exact h
+  · intro x _
+    wp_run
+
+theorem flowpathlengths_safe (e : Ext) (nrows ncols nval outlet : Int) (code fdir cells : Nat → Int)
+    (hr : 0 ≤ nrows) (hc : 0 ≤ ncols) (hN : nrows * ncols ≤ 9223372036854775807)
+    (hfd : nrows * ncols ≤ e .flowdir) (hcode : 9 ≤ e .flowdircode)
+    (h1 : nval ≤ e .idxcellsArea) (h2 : 3 * nval ≤ e .flowpaths) :
+    Safe (flowpathlengths e nrows ncols nval outlet code fdir cells) := by
+  apply safe_of_wp (Q := fun _ => True)
+  unfold flowpathlengths
+  refine wp_bind (wp_forEach (fun i hi0 hi1 => ?_) (wp_pure trivial))
+  wp_lin
+  refine wp_forLoop (fun _ _ => True) _ _ _ trivial ?_ ?_
+  · intro j cur _ _ _
+    unfold flowpathWalk
+    refine wp_bind (wp_mono (wp_downstream1 hr hc hN hfd hcode (le_refl 0) (by simp [oneExt]) (by simp [oneExt])) ?_)
+    intro d _
+    cases d <;> wp_run
+  · intro x _
+    wp_run
+/-- `c_intersect`: the cells stored so far are distinct cells of the target grid, so there are at most
+`nrows*ncols` of them — the extent `Catchment.intersect` allocates — whatever the number of points -/
+theorem intersect_safe (e : Ext) (nrows ncols nval : Int) (f : Nat → XInt × XInt)
+    (hr : 0 ≤ nrows) (hc : 0 ≤ ncols) (hN : nrows * ncols ≤ 9223372036854775807)
+    (h1 : 2 * nval ≤ e .xyarea) (h2 : nrows * ncols ≤ e .idxcells) (h3 : nrows * ncols ≤ e .weights)
+    (h4 : 1 ≤ e .npoints) :
+    Safe (intersect e nrows ncols nval f) := by
+  apply safe_of_wp (Q := fun _ => True)
+  unfold intersect
+  have h0 : 0 ≤ nrows * ncols := Int.mul_nonneg hr hc
+  refine wp_bind (wp_forLoop (fun _ stored => stored.Nodup ∧ ∀ x ∈ stored, 0 ≤ x ∧ x < nrows * ncols) _ _ []
+    ⟨List.nodup_nil, by simp⟩ ?_ ?_)
+  · intro i stored hi0 hi1 hI
+    have hlen := length_le_of_nodup_range h0 stored hI.1 hI.2
+    wp_lin
+    refine wp_mono (wp_coord2cell1 _ _ hN) (fun c hc => ?_)
+    refine wp_ite (fun _ => wp_pure (by intro s' hs; cases hs; exact hI)) (fun hp => ?_)
+    have hg : 0 ≤ c ∧ c < nrows * ncols := hc.resolve_left (by omega)
+    refine wp_bind (wp_mono (wp_intersectFind (by omega) (by omega)) (fun found hf => ?_))
+    refine wp_bite (fun _ => wp_pure (by intro s' hs; cases hs; exact hI)) (fun hnf => ?_)
+    have hnot : c ∉ stored := by
+      intro hm
+      have := hf.2 hm
+      rw [hnf] at this
+      cases this
+    have hnd : (stored ++ [c]).Nodup := by
+      rw [List.nodup_append]
+      refine ⟨hI.1, List.nodup_singleton c, ?_⟩
+      intro a ha b hb
+      simp at hb
+      subst hb
+      intro hab; subst hab; exact hnot ha
+    have hrange : ∀ x ∈ stored ++ [c], 0 ≤ x ∧ x < nrows * ncols := by
+      intro x hx
+      rcases List.mem_append.1 hx with h | h
+      · exact hI.2 x h
+      · simp at h; subst h; exact hg
+    have hlen2 := length_le_of_nodup_range h0 _ hnd hrange
+    simp at hlen2
+    wp_lin
+  · intro x _
+    cases x with
+    | inr x => exact nomatch x
+    | inl s => wp_lin
 end HydroVerif.C05
